@@ -85,7 +85,9 @@ def one_case(ctx, index, rng: random.Random):
     cur = h
     steps = rng.randint(1, 4)
     # narrow integer contents: keep products (errors2 x c*c) inside the type - overflow produced by numpy itself is outside the statement
-    narrow = {"int16": [2, 0.5, 1.5, np.float32(0.5), np.int16(2), np.float64(0.75)], "int32": [2, 3, 0.5, 10, 1.5, np.int32(2), np.float32(0.5), 7]}.get(s0["dtype"])
+    # (numpy integers of the content type's own width count like python ints: the products are formed in 64 bits, the type widens)
+    narrow = {"int16": [2, 0.5, 1.5, np.float32(0.5), np.int16(2), np.float64(0.75), np.int16(100), np.int16(300), 1000],
+              "int32": [2, 3, 0.5, 10, 1.5, np.int32(2), np.float32(0.5), 7, np.int32(70000), np.int16(300), 70000]}.get(s0["dtype"])
     if narrow is not None:
         steps = 1 if s0["dtype"] == "int16" else min(steps, 2)
     try:
@@ -428,6 +430,33 @@ def far_scale_case(ctx, index, rng: random.Random):
             rec.fail(monitor="C06.scale.stats", op=form, symptom="a refused in-place scaling changed the histogram", diff=sorted(dd),
                      detail={"factor": repr(c), "error": f"{type(raised).__name__}: {raised}"[:120], "frequencies": np.asarray(a.frequencies).tolist()[:6]})
         rec.case(["refused", s0["frequencies"], repr(c), form], has_negative and raised is not None, cls=f"refused_for_contents/{form}/{'raised' if raised is not None else 'accepted'}")
+        return
+    if rng.random() < 0.2:
+        # a divisor whose reciprocal is not a float (subnormal): the contents are divided by it exactly, and so are the recorded sums
+        c = rng.choice([1e-310, 5e-309, 3e-311])  # (the quotients of the sums stay below the largest float)
+        vals = [rng.randint(1, 40) / 8 for _ in range(rng.randint(2, 12))]
+        wts_ = np.full(len(vals), rng.choice([1e-12, 1e-10]))
+        h = physt.h1(np.asarray(vals), np.array([0.0, 2.5, 6.0]), weights=wts_)
+        try:
+            with warnings.catch_warnings():
+                warnings.simplefilter("ignore")
+                with np.errstate(all="ignore"):
+                    if rng.random() < 0.5:
+                        g = h / c
+                    else:
+                        g = h.copy()
+                        g /= c
+        except Exception as ex:
+            rec.fail(monitor="C06.scale.stats", op="div/subnormal", symptom=f"dividing by a finite positive scalar raised {type(ex).__name__}", diff=["raised"], detail={"factor": c, "error": str(ex)[:120]})
+            return
+        with attach.quiet():
+            want_w = float(wts_.sum()) / c
+            mean = sum(vals) / len(vals)
+            got_w, got_m = float(g.statistics.weight), float(g.statistics.mean())
+            if not (math.isfinite(want_w) and abs(got_w - want_w) <= 1e-9 * want_w and abs(got_m - mean) <= 1e-9 * abs(mean)):
+                rec.fail(monitor="C06.scale.stats", op="div/subnormal", symptom="statistics weight / mean wrong after dividing by a scalar whose reciprocal is not a float", diff=["statistics"],
+                         detail={"factor": c, "weight": got_w, "expected_weight": want_w, "mean": got_m, "expected_mean": mean})
+        rec.case(["subnormal", vals, c], True, cls="far_scale/subnormal_divisor")
         return
     up = rng.random() < 0.5
     c = rng.choice([1e150, 1e149, 3e150]) if up else rng.choice([1e-150, 1e-149, 2.5e-150])
